@@ -23,6 +23,7 @@ def run(ctx):
     ctx.run("C03.MAGIC", "R-TABLE", zf.magic)
     ctx.run("C03.SIBLINGS", "R-SIBLING", zf.siblings)
     ctx.run("C03.DUMP-FLOW", "R-FLOW", zf.dump_flow)
+    ctx.run("C13.REWIND", "R-TABLE", zf.rewind)
     ctx.run("C03.CLOSE", "R-ORDER", zf.close_clause)
     ctx.run("C14.NO-SWALLOW", "R-ERRDISC", zf.no_swallow)
     ctx.run("C03.ARG-RESOLUTION", "R-TABLE", zf.arg_resolution)
